@@ -11,8 +11,9 @@ for spec in "$@"; do
   tag=${spec%%:*}; checks=${spec#*:}
   wt=$(mktemp -d ${TMPDIR:-/tmp}/mutwt-XXXXXX); rmdir $wt
   git -C /repo worktree add -q --detach $wt HEAD || { echo "RESULT tag=$tag worktree-failed"; continue; }
-  if ! git -C $wt apply seeded/$tag/patch.diff 2>/dev/null && ! git -C $wt apply --3way "$(pwd)/seeded/$tag/patch.diff" 2>/dev/null; then
-    ( cd $wt && git apply "$OLDPWD/seeded/$tag/patch.diff" ) || { echo "RESULT tag=$tag patch-does-not-apply"; git -C /repo worktree remove --force $wt; continue; }
+  P="$(pwd)/seeded/$tag/patch.diff"
+  if ! git -C $wt apply "$P" 2>/dev/null && ! git -C $wt apply --3way "$P" 2>/dev/null; then
+    echo "RESULT tag=$tag patch-does-not-apply"; git -C /repo worktree remove --force $wt; continue
   fi
   for id in ${checks//,/ }; do
     rm -rf replays
